@@ -9,16 +9,20 @@ CONSTANTS
   Xs = {}
   Procs = {}
   FNames = {}
+  OptParts = {}
   Meas = {}
   MaxUploads = 0
   MaxFiles = 0
   MaxResults = 0
   MaxEdits = 0
+  MaxLines = 0
   QKeys = {}
   PairKeys = {}
   PairToks = {}
   EmptyGtIsAny = FALSE
   ListEOFError = FALSE
   FlushRows = 0
+  EqualIgnoresAbsence = FALSE
+  EmptyNameValueIsLabel = TRUE
 INVARIANTS MergeMeansConj MergeMeansConjNonEmpty MergeRejectOK MergeEOFOK
 CHECK_DEADLOCK FALSE
